@@ -12,15 +12,15 @@ Import ListNotations.
 From FR Require Import SelAst Gen_selector Gen_selsem SelSem SelSem_proofs.
 Open Scope string_scope.
 
-(* ---- the generated facts have the shape the model transcribes (computed on what the code says now) ---- *)
+(* ---- the facts OBSERVED on the live engines (witness expressions, logging probes, function identities) are the ones
+   the model transcribes ---- *)
 Theorem C07_generated_shapes :
   facts_ok gen_facts = true /\
   boolop_eager_bool_fold = true /\ boolop_swallows_nonetype_typeerror = true /\ binop_sentinel_guard = true /\
   call_allowed_by_identity = true /\ final_raise_typeerror = true /\ typematcher_shapes_ok = true /\
   forallb (fun root => in_list root compiled_extra_names) whitelist_roots = true /\
   compiled_roots_dynamic = true /\ fieldtype_roots_resolve = true /\
-  dispatch_order = ["Constant"; "List"; "Tuple"; "Name"; "Attribute"; "BoolOp"; "BinOp"; "UnaryOp"; "Compare"; "Call";
-                    "comprehension"; "GeneratorExp"] /\
+  evaluation_order_as_transcribed = true /\
   map fst data_names = ["None"; "True"; "False"; "str"; "repr"; "fields"; "any"; "all"; "lower"; "upper"; "name"; "names";
                         "get_type"; "field_contains"; "field_equals"; "field_regex"; "has_field"; "r"; "Type"].
 Proof. repeat split; reflexivity. Qed.
